@@ -189,28 +189,32 @@ Qed.
 Lemma is_pk_lk p k : is_pk (literal_constraint p k) = is_pk k.
 Proof. now destruct k. Qed.
 
-Lemma create_table_stmt_prefix p t cols ks :
-  forallb (fun c => type_ok t (c_type c)) cols = true ->
-  create_table_stmt (p +++ t) (map (literal_col p) cols) (map (literal_constraint p) ks)
-  = rename_stmt p (create_table_stmt t cols ks).
+Lemma create_coldef_prefix p t ks c : type_ok t (c_type c) = true ->
+  create_coldef (p +++ t) (map (literal_constraint p) ks) (literal_col p c) = rn_coldef p (create_coldef t ks c).
 Proof.
-  intro H. unfold create_table_stmt. cbn [rename_stmt].
+  intro H. unfold create_coldef.
   rewrite existsb_map. rewrite (existsb_ext_in _ is_pk) by (intros; apply is_pk_lk).
   rewrite flat_map_map.
   rewrite (flat_map_ext_in (fun x => match literal_constraint p x with CPrimaryKey true pk => pk | _ => [] end)
                            (fun k => match k with CPrimaryKey true pk => pk | _ => [] end))
     by (intros x _; now destruct x).
-  f_equal.
-  - (* columns *)
-    rewrite !map_map. apply map_ext_in. intros c Hc.
-    rewrite forallb_forall in H. specialize (H c Hc).
-    rewrite (sea_coldef_prefix p t c H). unfold rn_coldef. cbn [cd_name cd_type cd_notnull cd_default cd_pk].
-    rewrite lc_name, lc_type, lc_pk. f_equal.
-    destruct (mem_str (c_name c) _ && supports_auto_increment (c_type c))%bool; [|reflexivity].
-    destruct (serial_text (c_type c)) as [st|] eqn:Es; [|reflexivity].
-    symmetry. exact (proj2 (serial_builtin _ _ Es) p).
-  - rewrite flat_map_map. apply flat_map_ext_in. intros x _. now destruct x.
-  - rewrite flat_map_map, map_flat_map. apply flat_map_ext_in. intros x _.
+  rewrite (sea_coldef_prefix p t c H). unfold rn_coldef. cbn [cd_name cd_type cd_notnull cd_default cd_pk].
+  rewrite lc_name, lc_type, lc_pk. f_equal.
+  destruct (mem_str (c_name c) _ && supports_auto_increment (c_type c))%bool; [|reflexivity].
+  destruct (serial_text (c_type c)) as [st|] eqn:Es; [|reflexivity].
+  symmetry. exact (proj2 (serial_builtin _ _ Es) p).
+Qed.
+
+Lemma create_table_stmt_prefix p t cols ks :
+  forallb (fun c => type_ok t (c_type c)) cols = true ->
+  create_table_stmt (p +++ t) (map (literal_col p) cols) (map (literal_constraint p) ks)
+  = rename_stmt p (create_table_stmt t cols ks).
+Proof.
+  intro H. unfold create_table_stmt. cbn [rename_stmt]. f_equal.
+  - rewrite !map_map. apply map_ext_in. intros c Hc.
+    rewrite forallb_forall in H. now apply create_coldef_prefix, H.
+  - unfold create_pks. rewrite flat_map_map. apply flat_map_ext_in. intros x _. now destruct x.
+  - unfold create_fks. rewrite flat_map_map, map_flat_map. apply flat_map_ext_in. intros x _.
     destruct x; try reflexivity. cbn [literal_constraint map rn_fk fk_name fk_cols fk_rtable fk_rcols fk_on_delete fk_on_update option_map].
     now rewrite fk_name_prefix.
 Qed.
